@@ -5,6 +5,7 @@ mod coqfmt;
 mod props;
 mod rng;
 mod script;
+mod startdrv;
 
 use std::path::PathBuf;
 
@@ -43,6 +44,16 @@ fn main() {
             let mut sink = cases::CaseSink::new("C15", "Corr.C15 Proofs.SrcSpec Model.SrcRange", &opts.out, 500);
             props::c15::generate(&opts, &mut sink);
             sink.finish(props::c15::RULE, serde_json::json!({}));
+        }
+        "C17" => {
+            let mut sink = cases::CaseSink::new("C17", "Corr.C17", &opts.out, 300);
+            props::c17::generate(&opts, &mut sink);
+            sink.finish(props::c17::RULE, serde_json::json!({}));
+        }
+        "C11" => {
+            let mut sink = cases::CaseSink::new("C11", "Corr.C11 Corr.BinCorr Model.BinaryStart", &opts.out, 200);
+            props::c11::generate(&opts, &mut sink);
+            sink.finish(props::c11::RULE, serde_json::json!({}));
         }
         p => {
             eprintln!("unknown property {p}");
